@@ -646,6 +646,12 @@ func mapLinkProperties(mm map[string][]byte, l Link) (hasData bool, err error) {
 		}
 		hasData = true
 	}
+	if l.Preview != nil {
+		if mm["preview"], err = gobEncodeItem(l.Preview); err != nil {
+			return
+		}
+		hasData = true
+	}
 	if l.Width > 0 {
 		if mm["width"], err = gobEncodeUint(l.Width); err != nil {
 			return
